@@ -60,16 +60,26 @@ def generate(tier, rng):
         for a, b in (wins if tier != "quick" else rng.sample(wins, min(len(wins), 25))):
             cases.append({"op": "pcrop", "tier": t, "a": a, "b": b, "mode": "lax", "rebase": (a + b) % 2 == 0,
                           "scale": ["dyadic", 1]})
-    ntg = 150 if tier == "quick" else 3000
+    ntg = 250 if tier == "quick" else 5000
     for _ in range(ntg):
         tiers = []
         for k in range(rng.randint(1, 4)):
             t = gen.random_itier(rng, name="i%d" % k, tmax=40) if rng.random() < 0.6 else gen.random_ptier(rng, name="p%d" % k, tmax=40)
-            t["min"], t["max"] = min(0, t["min"]), max(40, t["max"])
+            if rng.random() < 0.6:
+                t["min"], t["max"] = min(0, t["min"]), max(40, t["max"])
+            elif t["entries"]:
+                # a tier narrower than the others (its own first and last time, or a little more)
+                lo, hi = t["entries"][0][0], t["entries"][-1][-2]
+                t["min"], t["max"] = lo - rng.randint(0, 2), hi + rng.randint(0, 2)
             tiers.append(t)
         a, b = sorted((rng.randint(-3, 45), rng.randint(-3, 45)))
-        if rng.random() < 0.1:
+        u = rng.random()
+        if u < 0.1:
             b = a
+        elif u < 0.3:
+            # a window that covers every tier completely, with or without room to spare
+            a = min(t["min"] for t in tiers) - rng.choice([0, 0, 1, 3])
+            b = max(t["max"] for t in tiers) + rng.choice([0, 0, 1, 3])
         cases.append({"op": "tgcrop", "tiers": tiers, "a": a, "b": b, "mode": rng.choice(list(MODES)),
                       "rebase": rng.random() < 0.5, "scale": gen.pick_scale(rng)})
     # the same selections on a grid of binary64 neighbours (0.3 and 0.1+0.2 are different times): crop compares exactly
